@@ -735,7 +735,14 @@ def compile_run_checked(workdir, tag, sources, timeout=20):
     try:
         r = subprocess.run(['./a.out'], cwd=d, capture_output=True, text=True, timeout=timeout)
     except subprocess.TimeoutExpired:
-        return 'timeout', '', 'run timeout'
+        # the programs run for milliseconds; on an overloaded box (load > 2 x cores) a time-out may be the
+        # scheduler's fault: try once more with a generous limit before calling it non-termination
+        if os.getloadavg()[0] <= 2 * (os.cpu_count() or 4):
+            return 'timeout', '', 'run timeout'
+        try:
+            r = subprocess.run(['./a.out'], cwd=d, capture_output=True, text=True, timeout=120)
+        except subprocess.TimeoutExpired:
+            return 'timeout', '', 'run timeout'
     if r.returncode != 0:
         return 'runtime-error', r.stdout, r.stderr[-2000:]
     out = r.stdout
